@@ -2,7 +2,7 @@
 //!
 //! This is a private module. Its public types are re-exported by the parent.
 
-use super::super::scan::Scanner;
+use super::super::scan::{Scanner, Symbol, Symbols};
 use super::super::wire::ParseError;
 use super::absolute::Name;
 use super::builder::{FromStrError, NameBuilder, PushError};
@@ -144,12 +144,26 @@ impl<Octets> UncertainName<Octets> {
     {
         let mut builder =
             NameBuilder::<<Octets as FromBuilder>::Builder>::new();
-        builder.append_chars(chars)?;
-        if builder.in_label() || builder.is_empty() {
-            Ok(builder.finish().into())
-        } else {
-            Ok(builder.into_name()?.into())
-        }
+        Symbols::with(chars.into_iter(), |symbols| {
+            // NameBuilder can’t deal with a single dot, so we need to
+            // special case that.
+            match symbols.next() {
+                Some(Symbol::Char('.')) => {
+                    if symbols.next().is_some() {
+                        return Err(FromStrError::empty_label());
+                    }
+                    return Ok(builder.into_name()?.into());
+                }
+                Some(first) => builder.push_symbol(first)?,
+                None => {}
+            }
+            builder.append_symbols(symbols)?;
+            if builder.in_label() || builder.is_empty() {
+                Ok(builder.finish().into())
+            } else {
+                Ok(builder.into_name()?.into())
+            }
+        })
     }
 
     pub fn scan<S: Scanner<Name = Name<Octets>>>(
@@ -426,7 +440,8 @@ impl<Octets: AsRef<[u8]>> fmt::Display for UncertainName<Octets> {
     fn fmt(&self, f: &mut fmt::Formatter<'_>) -> fmt::Result {
         match *self {
             UncertainName::Absolute(ref name) => {
-                write!(f, "{}.", name)
+                // The root name displays as a single dot already.
+                name.fmt_with_dot().fmt(f)
             }
             UncertainName::Relative(ref name) => name.fmt(f),
         }
